@@ -167,7 +167,11 @@ func (ip *Inode) FreeInode(atxn *alloctxn.AllocTxn) {
 func (ip *Inode) Resize(atxn *alloctxn.AllocTxn, sz uint64) bool {
 	var newSz = sz
 	var doshrink = false
-	oldsz := util.RoundUp(ip.Size, disk.BlockSize)
+	var oldsz = util.RoundUp(ip.Size, disk.BlockSize)
+	if ip.ShrinkSize > oldsz {
+		// an earlier shrink has not finished: blocks up to ShrinkSize are still owned
+		oldsz = ip.ShrinkSize
+	}
 	util.DPrintf(5, "Resize %v to sz %d\n", oldsz, newSz)
 	ip.Size = newSz
 	newSz = util.RoundUp(sz, disk.BlockSize)
@@ -179,7 +183,7 @@ func (ip *Inode) Resize(atxn *alloctxn.AllocTxn, sz uint64) bool {
 	ip.WriteInode(atxn)
 	if newSz < oldsz {
 		if ip.shrinkFits(atxn, oldsz-newSz) {
-			ip.Shrink(atxn)
+			doshrink = ip.Shrink(atxn)
 			util.DPrintf(1, "small file delete inside trans\n")
 		} else {
 			doshrink = true
